@@ -101,7 +101,9 @@ def check(lines, ids_only=True):
                 if stack: V.append(('completion-inside-bracket', n, ln))
                 stats['completion'] += 1
             elif k in ('IB', 'UB'):
-                if top and top[0] not in ('KB',): V.append(('invoke-bracket-inside-%s' % top[0], n, ln))
+                # invocation happens at the end of a macrostep (outside every bracket); cancellation when the invoking state is exited
+                # (App. D exitStates: after the state's onexit content, i.e. inside its exit bracket) or on completion
+                if top and not (top[0] == 'KB' or (k == 'UB' and top[0] == 'XB')): V.append(('invoke-bracket-inside-%s' % top[0], n, ln))
             stack.append((k, arg, n, {'logs': 0}))
             continue
         if k in CLOSE:
